@@ -212,6 +212,17 @@ fn generate(rng: &mut Rng, thorough: bool) -> Vec<Call> {
       for fl in ["\"\"", "\"q\"", "\"i\"", "\"sm\"", "\"qi\"", "\"qx\"", "null"] {
         add("replace", vec![lit_str(s), lit_str(m), lit_str("X"), fl.into()], "regex-flags");
       }
+      // the same pattern text with and without the flag that changes its meaning, one after the other
+      // (an evaluation must not depend on what was evaluated before it)
+      let swapped: String = m.chars().map(|c| if c.is_ascii_lowercase() { c.to_ascii_uppercase() } else if c.is_ascii_uppercase() { c.to_ascii_lowercase() } else { c }).collect();
+      if &swapped != m {
+        add("matches", vec![lit_str(s), lit_str(&swapped)], "regex-flag-sequence");
+        add("matches", vec![lit_str(s), lit_str(&swapped), "\"i\"".into()], "regex-flag-sequence");
+        add("matches", vec![lit_str(s), lit_str(&swapped)], "regex-flag-sequence");
+        add("replace", vec![lit_str(s), lit_str(&swapped), lit_str("X"), "\"i\"".into()], "regex-flag-sequence");
+        add("replace", vec![lit_str(s), lit_str(&swapped), lit_str("X")], "regex-flag-sequence");
+        add("split", vec![lit_str(s), lit_str(&swapped)], "regex-flag-sequence");
+      }
     }
   }
 
@@ -566,6 +577,82 @@ fn input_of(call: &Call, text: &str) -> String {
   format!("{} ;; {}", text, serde_json::to_string(&v).unwrap())
 }
 
+/// Regular-expression built-ins with a literal pattern, with and without the flag `i`, in sequences: the value of
+/// a call is that of the literal-pattern semantics whatever was evaluated before it (expectations computed here,
+/// on ASCII letters and digits only). Shared with C13 (evaluation is pure).
+pub fn regex_sequences(rep: &mut Report, rng: &mut Rng, n_seq: usize) {
+  let scope = Scope::default();
+  let words = ["FooBar", "foobar", "FOOBAR", "abcABC", "xYz", "b", "B", "oo", "OO", "Ab", "aB", "Zz9"];
+  for _ in 0..n_seq {
+    let input = (*rng.pick(&words)).to_string();
+    let pattern = {
+      let w: Vec<char> = rng.pick(&words).chars().collect();
+      let a = rng.below(w.len() as u64) as usize;
+      let b = a + 1 + rng.below((w.len() - a) as u64) as usize;
+      w[a..b.min(w.len())].iter().collect::<String>()
+    };
+    // one pattern text, several calls in a random order
+    let mut seq: Vec<(String, String)> = vec![];
+    for _ in 0..(2 + rng.below(4)) {
+      let ci = rng.chance(1, 2);
+      let hit = if ci { input.to_lowercase().contains(&pattern.to_lowercase()) } else { input.contains(&pattern) };
+      match rng.below(3) {
+        0 => seq.push((
+          format!("matches(\"{}\", \"{}\"{})", input, pattern, if ci { ", \"i\"" } else { "" }),
+          hit.to_string(),
+        )),
+        1 => {
+          let expect = if ci {
+            // replace every occurrence, letter case ignored
+            let (li, lp) = (input.to_lowercase(), pattern.to_lowercase());
+            let mut out = String::new();
+            let mut i = 0;
+            while i < input.len() {
+              if li[i..].starts_with(&lp) {
+                out.push('#');
+                i += lp.len();
+              } else {
+                out.push_str(&input[i..i + 1]);
+                i += 1;
+              }
+            }
+            out
+          } else {
+            input.replace(&pattern, "#")
+          };
+          seq.push((
+            format!("replace(\"{}\", \"{}\", \"#\"{})", input, pattern, if ci { ", \"i\"" } else { "" }),
+            format!("\"{}\"", expect),
+          ));
+        }
+        _ => {
+          let parts: Vec<String> = input.split(pattern.as_str()).map(|x| format!("\"{}\"", x)).collect();
+          seq.push((format!("split(\"{}\", \"{}\")", input, pattern), format!("[{}]", parts.join(", "))));
+        }
+      }
+    }
+    for (k, (text, want)) in seq.iter().enumerate() {
+      rep.case(&format!("regex-sequence {} {}", k, text), true);
+      rep.hit("family:regex-sequence");
+      let got = match run_impl(&scope, text) {
+        Impl::Val(v) => v.to_string(),
+        Impl::Panic(m) => format!("panic {}", m),
+      };
+      if &got != want {
+        let before: Vec<&str> = seq[..k].iter().map(|(t, _)| t.as_str()).collect();
+        rep.disagree(
+          Kind::ImplVsSpec,
+          "regex-sequence",
+          "matches / replace / split with a literal pattern differ from the literal-pattern semantics (possibly depending on what was evaluated before)",
+          &format!("{}   after: {}", text, before.join(" ; ")),
+          &got,
+          want,
+        );
+      }
+    }
+  }
+}
+
 pub fn run(cfg: &Cfg) -> Report {
   let scope = Scope::default();
   if cfg.extra.iter().any(|x| x == "--probe") {
@@ -583,6 +670,10 @@ pub fn run(cfg: &Cfg) -> Report {
   let mut model = Model::start(&cfg.driver);
   let mut rng = Rng::new(cfg.seed);
   let thorough = cfg.tier == "thorough";
+
+  if cfg.replay.is_none() {
+    regex_sequences(&mut rep, &mut rng, if thorough { 4000 } else { 300 });
+  }
 
   let calls: Vec<Call> = if let Some(path) = &cfg.replay {
     // a replay file carries the call after " ;; " as a JSON array [bif, arg…]
